@@ -431,11 +431,46 @@ func prepareOverlay(repo, vdir string, funcs map[string][]string) (string, error
 }
 
 // runNative replays all items of one package in a single go test invocation.
+// nativeRepeats: a counterexample that depends on a nondeterministic choice the native run cannot control (map
+// iteration order, goroutine schedule) is replayed several times; it counts as reproduced if any run shows it.
+const nativeRepeats = 200
+
+func replayIsNondet(file string) bool {
+	data, err := os.ReadFile(file)
+	if err != nil {
+		return false
+	}
+	var doc struct {
+		Inputs map[string]interface{} `json:"inputs"`
+	}
+	if json.Unmarshal(data, &doc) != nil {
+		return false
+	}
+	for k := range doc.Inputs {
+		if strings.HasPrefix(k, "maporder") || strings.HasPrefix(k, "sched") {
+			return true
+		}
+	}
+	return false
+}
+
+func nativeShowsProblem(nr *nativeResult) bool {
+	return nr != nil && (len(nr.Failures) > 0 || nr.Panic != "")
+}
+
 func runNative(repo, vdir, sub string, items []*replayItem, overlay string) {
 	batch := filepath.Join(vdir, "replay", "tmp", "native", "batch-"+sub+".txt")
 	var sb strings.Builder
-	for _, it := range items {
-		sb.WriteString(it.harness + "\t" + it.file + "\n")
+	var owner []int // batch line -> item
+	for i, it := range items {
+		n := 1
+		if replayIsNondet(it.file) {
+			n = nativeRepeats
+		}
+		for k := 0; k < n; k++ {
+			sb.WriteString(it.harness + "\t" + it.file + "\n")
+			owner = append(owner, i)
+		}
 	}
 	os.WriteFile(batch, []byte(sb.String()), 0o644)
 	pkg := "./" + subDir[sub]
@@ -450,13 +485,16 @@ func runNative(repo, vdir, sub string, items []*replayItem, overlay string) {
 	for _, line := range strings.Split(string(out), "\n") {
 		if strings.HasPrefix(line, "VP-RESULT: ") {
 			var nr nativeResult
-			if json.Unmarshal([]byte(strings.TrimPrefix(line, "VP-RESULT: ")), &nr) == nil && idx < len(items) {
-				items[idx].res = &nr
+			if json.Unmarshal([]byte(strings.TrimPrefix(line, "VP-RESULT: ")), &nr) == nil && idx < len(owner) {
+				it := items[owner[idx]]
+				if it.res == nil || (!nativeShowsProblem(it.res) && nativeShowsProblem(&nr)) {
+					it.res = &nr
+				}
 				idx++
 			}
 		}
 	}
-	if idx < len(items) {
+	if idx < len(owner) {
 		msg := "native replay produced no result"
 		if err != nil {
 			tail := string(out)
@@ -465,8 +503,10 @@ func runNative(repo, vdir, sub string, items []*replayItem, overlay string) {
 			}
 			msg = fmt.Sprintf("native replay failed: %v: %s", err, tail)
 		}
-		for ; idx < len(items); idx++ {
-			items[idx].err = msg
+		for ; idx < len(owner); idx++ {
+			if it := items[owner[idx]]; it.res == nil {
+				it.err = msg
+			}
 		}
 	}
 }
